@@ -1080,6 +1080,12 @@ class DriverLubaRs232(DriverSerialBase):
             # Make sure the received command buffer is empty, so that an
             # unexpected response can't accidentally be used
             self._protocol.reset_dali_response()
+            if msg.devicetype != 0 and not in_transaction:
+                # run_sequence() sends EnableDeviceType itself; a lone
+                # send() has to do it, inside the same critical section
+                await self._protocol.send_dali_command(
+                    gear.general.EnableDeviceType(msg.devicetype)
+                )
             await self._protocol.send_dali_command(msg)
             if msg.is_query:
                 response = msg.response(None)
@@ -1673,6 +1679,12 @@ class DriverSCIRS232(DriverSerialBase):
             # Make sure the received command buffer is empty, so that an
             # unexpected response can't accidentally be used
             self._protocol.reset_dali_response()
+            if msg.devicetype != 0 and not in_transaction:
+                # run_sequence() sends EnableDeviceType itself; a lone
+                # send() has to do it, inside the same critical section
+                await self._protocol.send_dali_command(
+                    gear.general.EnableDeviceType(msg.devicetype)
+                )
             await self._protocol.send_dali_command(msg)
             if msg.is_query:
                 response = msg.response(None)
